@@ -213,6 +213,13 @@ func (r *Run) report(pd *propertyDef, update bool) int {
 	_ = os.MkdirAll(filepath.Join(verifDir, "replays"), 0o755)
 	sort.Slice(failing, func(i, j int) bool { return failing[i].Name < failing[j].Name })
 	r.unitWitnesses(failing) // illustration only: sets Ground where a failing input was found and replayed (witness_units.go)
+	// the same for generated parsers and the template runtime (witness_search.go): differential search against a
+	// reference interpreter of the PEG semantics
+	if len(failing) > 0 {
+		r.groundFailing(failing)
+		// presentation only: violations that carry a failing input are listed first (at most 40 lines are printed)
+		sort.SliceStable(failing, func(i, j int) bool { return failing[i].Ground != "" && failing[j].Ground == "" })
+	}
 	nviol := 0
 	for _, ob := range failing {
 		nviol++
@@ -273,10 +280,15 @@ func (r *Run) writeReplay(ob *Obligation) string {
 			m["failing_input"] = input
 			m["replay_command"] = command
 			m["note"] = "the obligation does not discharge on this tree (that is the violation); failing_input illustrates it: a concrete input, found by the witness search and replayed against the real code, on which the code and the property disagree"
+			} else if json.Valid([]byte(ob.Ground)) {
+			// a witness of the parser search (witness_search.go: type Witness); `govc replay` needs nothing but this file
+			m["failing_input"] = json.RawMessage(ob.Ground)
+			m["replay_command"] = fmt.Sprintf("cd %s && bin/govc replay %s", verifDir, path)
+			m["note"] = "the obligation does not discharge on this tree (that is the violation); failing_input illustrates it: an input, found by the witness search and replayed against the real code, on which the generated parser differs from the reference interpreter of the PEG semantics (DESIGN.md 4.2)"
 		}
 	}
-	if ob.Query != "" && len(ob.Query) < 300000 {
-		m["smt_query"] = ob.Query + "(check-sat)\n"
+	if q := ob.query(); q != "" && len(q) < 300000 {
+		m["smt_query"] = q + "(check-sat)\n"
 	}
 	data, _ := json.MarshalIndent(m, "", " ")
 	_ = os.WriteFile(path, append(data, '\n'), 0o644)
